@@ -117,18 +117,20 @@ func checkC18(P *core.Program, R *core.Report) {
 	sort.Slice(fns, func(i, j int) bool { return P.Key(fns[i]) < P.Key(fns[j]) })
 	used := map[string]bool{}
 	// (P) explicit panics
+	panicSeen := map[string]int{}
 	for _, fn := range fns {
 		if hasRecover(fn) {
 			continue
 		}
-		key := P.Key(fn)
-		n := 0
+		key := topKey(P, fn) // closures count with the function that contains them
+		n := panicSeen[key]
 		for _, b := range fn.Blocks {
 			for _, in := range b.Instrs {
 				if _, ok := in.(*ssa.Panic); !ok {
 					continue
 				}
 				n++
+				panicSeen[key] = n
 				tk := key + " panic"
 				if n > 1 {
 					tk = fmt.Sprintf("%s panic #%d", key, n)
@@ -247,7 +249,7 @@ func checkC18(P *core.Program, R *core.Report) {
 		if hasRecover(fn) {
 			continue
 		}
-		key := P.Key(fn)
+		key := topKey(P, fn)
 		ff := P.Facts(fn)
 		seenDiv := map[string]int{}
 		for _, c := range core.Calls(fn) {
@@ -608,6 +610,16 @@ func stableDesc(ff *core.FuncFacts, v ssa.Value) string {
 			return k, true
 		}
 		d := ff.Describe(lv)
+		// a merged value lists its alternatives: as a set, in a fixed order
+		alts := strings.Split(d, "|")
+		sort.Strings(alts)
+		var uniqAlts []string
+		for i, a := range alts {
+			if i == 0 || a != alts[i-1] {
+				uniqAlts = append(uniqAlts, a)
+			}
+		}
+		d = strings.Join(uniqAlts, "|")
 		d = strings.NewReplacer("*", "", "/", "÷", "+", "＋", " ", "").Replace(d)
 		return d, true
 	})
@@ -677,4 +689,12 @@ func checkTruncatingSplits(P *core.Program, R *core.Report, fns []*ssa.Function)
 				"a share subtracted from a loop-carried DecCoins pot must be computed with truncating operations, or the shares can exceed the pot and DecCoins.Sub panics. "+bad)
 		}
 	}
+}
+
+// topKey: the key of the declared function a (possibly anonymous) function belongs to.
+func topKey(P *core.Program, fn *ssa.Function) string {
+	for fn.Parent() != nil {
+		fn = fn.Parent()
+	}
+	return P.Key(fn)
 }
